@@ -38,6 +38,12 @@ int main(int argc, char** argv) {
             emit(type + (type == "p2tr-script" ? " path=" + std::to_string(pathlen) : "") + (annex ? " annex" : ""), S.fund, S.tx, F_STANDARD);
         }
     }
+    // signature-free witness scripts / leaves (small data items; a script of the P2SH shape, which is an ordinary script there)
+    for (std::string type : {"p2wsh-checksig", "p2tr-script"}) for (std::string kind : {"data", "p2sh-shaped"}) {
+        gen::Shape sh; sh.nin = gen::is_taproot_type(type) ? 1 : 2; sh.pos = sh.nin - 1; sh.fund_vout = 1; sh.nout = 2; sh.leaf_kind = kind;
+        gen::Spend S = gen::make_spend(type, sh, 1, 1, false);
+        emit(type + " " + kind + " script", S.fund, S.tx, F_STANDARD);
+    }
     // bare legacy outputs with hand-made scriptSig / scriptPubKey pairs: sections of zero, one and several operations
     {
         struct B { const char* name; const char* sig; const char* spk; };
